@@ -62,6 +62,17 @@ func ltPkgID(name, version string) string {
 	return name + "_" + version
 }
 
+// hasLayout: the layout argument is a comma-separated list of "flat" | "deep" (paths), "sameid" (layers with the
+// same operations are byte-identical: equal diff ids at different positions), "dotslash" (entry names spelled "./x").
+func hasLayout(layout, what string) bool {
+	for _, l := range strings.Split(layout, ",") {
+		if l == what {
+			return true
+		}
+	}
+	return false
+}
+
 // ltPath maps a model file to the path it has in the image.
 func ltPath(mode, layout, f string, pos int) string {
 	if mode == "dpkg" {
@@ -70,7 +81,7 @@ func ltPath(mode, layout, f string, pos int) string {
 		}
 		return "var/lib/dpkg/status.d/" + path.Base(f)
 	}
-	if layout == "deep" {
+	if hasLayout(layout, "deep") {
 		if pos == 0 {
 			return "var/lib/pkglist/" + path.Base(f)
 		}
@@ -102,7 +113,7 @@ type ltEntry struct {
 }
 
 // ltTar renders one layer: parent directory entries, then regular files / whiteout markers.
-func ltTar(entries []ltEntry) ([]byte, error) {
+func ltTar(entries []ltEntry, dotSlash bool) ([]byte, error) {
 	dirs := map[string]bool{}
 	for _, e := range entries {
 		for d := path.Dir(e.name); d != "." && d != "/"; d = path.Dir(d) {
@@ -118,9 +129,13 @@ func ltTar(entries []ltEntry) ([]byte, error) {
 	var buf bytes.Buffer
 	tw := tar.NewWriter(&buf)
 	for _, e := range all {
-		h := &tar.Header{Name: e.name, Mode: 0o644, Typeflag: tar.TypeReg, Size: int64(len(e.data))}
+		name := e.name
+		if dotSlash {
+			name = "./" + name
+		}
+		h := &tar.Header{Name: name, Mode: 0o644, Typeflag: tar.TypeReg, Size: int64(len(e.data))}
 		if e.dir {
-			h = &tar.Header{Name: e.name, Mode: 0o755, Typeflag: tar.TypeDir}
+			h = &tar.Header{Name: name, Mode: 0o755, Typeflag: tar.TypeDir}
 		}
 		if err := tw.WriteHeader(h); err != nil {
 			return nil, err
@@ -149,6 +164,9 @@ func ltRun(c *ltCase, mode, layout string) map[string]any {
 	// 1. one tar per non-empty layer
 	var adds []mutate.Addendum
 	tarOf := map[string]int{} // diff id (hex) -> ordinal of the tar
+	sameID := hasLayout(layout, "sameid")
+	ordAt := map[int]int{}    // position in c.Layers -> ordinal of its tar
+	hexAt := map[int]string{} // position in c.Layers -> diff id (hex)
 	ntar := 0
 	for j := range c.Layers {
 		l := &c.Layers[j]
@@ -159,6 +177,9 @@ func ltRun(c *ltCase, mode, layout string) map[string]any {
 		ntar++
 		// an unrelated file per layer: no tar is empty and all diff ids are distinct
 		entries := []ltEntry{{name: fmt.Sprintf("etc/layer-%d", j+1), data: []byte(fmt.Sprintf("layer %d\n", j+1))}}
+		if sameID && len(l.ops) > 0 {
+			entries = nil // layers that do the same are the same bytes
+		}
 		if mode == "dpkg" && ntar == 1 {
 			entries = append(entries, ltEntry{name: "etc/os-release", data: []byte("ID=debian\nVERSION_ID=\"12\"\nVERSION_CODENAME=bookworm\n")})
 		}
@@ -178,7 +199,7 @@ func ltRun(c *ltCase, mode, layout string) map[string]any {
 				return obs
 			}
 		}
-		raw, err := ltTar(entries)
+		raw, err := ltTar(entries, hasLayout(layout, "dotslash"))
 		if err != nil {
 			obs["error"] = err.Error()
 			return obs
@@ -194,11 +215,12 @@ func ltRun(c *ltCase, mode, layout string) map[string]any {
 			obs["error"] = err.Error()
 			return obs
 		}
-		if _, dup := tarOf[d.Hex]; dup {
+		if _, dup := tarOf[d.Hex]; dup && !sameID {
 			obs["error"] = "two layers with one diff id"
 			return obs
 		}
 		tarOf[d.Hex] = ntar
+		ordAt[j], hexAt[j] = ntar, d.Hex
 		adds = append(adds, mutate.Addendum{Layer: layer, History: v1.History{CreatedBy: l.Cmd}})
 	}
 	v1img, err := mutate.Append(empty.Image, adds...)
@@ -300,9 +322,17 @@ func ltRun(c *ltCase, mode, layout string) map[string]any {
 		}
 		layer := 0
 		if p.LayerDetails.DiffID != "" {
-			t, ok := tarOf[strings.TrimPrefix(p.LayerDetails.DiffID, "sha256:")]
+			hex := strings.TrimPrefix(p.LayerDetails.DiffID, "sha256:")
+			t, ok := tarOf[hex]
 			if !ok {
 				t = -1
+			}
+			if sameID {
+				// diff ids repeat: the layer is identified by the reported index (history aligned), its diff id must agree
+				t = -1
+				if hexAt[p.LayerDetails.Index] == hex {
+					t = ordAt[p.LayerDetails.Index]
+				}
 			}
 			layer = t
 		}
